@@ -541,6 +541,13 @@ func (r *Raft) pipelineDecode(s *followerReplication, p AppendPipeline, stopCh, 
 			peer := s.peer
 			s.peerLock.RUnlock()
 
+			// The exchange failed in the transport (e.g. it timed out): there is
+			// no response, and it must not count as contact with the follower.
+			if err := ready.Error(); err != nil {
+				r.logger.Error("pipelined appendEntries failed", "peer", peer, "error", err)
+				return
+			}
+
 			req, resp := ready.Request(), ready.Response()
 			appendStats(string(peer.ID), ready.Start(), float32(len(req.Entries)), r.noLegacyTelemetry)
 
